@@ -103,6 +103,7 @@ def ctlOp (s : RState) (t : List String) : RState :=
   | ["links"] => { s with expectObs := some s!"links {w.linksView}" }
   | ["deliver", a, b, i] =>
     { s with w := w.ctlDeliver (hostOf a) (hostOf b) (i.toNat?.getD 0), expectObs := none }
+  | ["mark", _] => { s with expectObs := some "ok" }
   | ["simclock"] => { s with expectObs := some s!"ok elapsed={w.elapsed} epoch={1700000000000000000 + w.elapsed}" }
   | _ => { s with expectObs := none }
 
